@@ -13,6 +13,7 @@ Variable P : expr -> Prop.
 Hypothesis Hconst : forall l, P (EConst l).
 Hypothesis Hvar : forall x, P (EVar x).
 Hypothesis Hlist : forall items, Forall P items -> P (EList items).
+Hypothesis Hmap : forall pairs, Forall (fun p => P (fst p) /\ P (snd p)) pairs -> P (EMap pairs).
 Hypothesis Hneg : forall a, P a -> P (ENeg a).
 Hypothesis Hnot : forall a, P a -> P (ENot a).
 Hypothesis Hbin : forall op a b, P a -> P b -> P (EBin op a b).
@@ -35,6 +36,14 @@ Fixpoint expr_ind' (e : expr) : P e :=
   | EConst l => Hconst l
   | EVar x => Hvar x
   | EList items => Hlist items (go items)
+  | EMap pairs =>
+      Hmap pairs
+        ((fix gm (l : list (expr * expr)) : Forall (fun p => P (fst p) /\ P (snd p)) l :=
+            match l with
+            | [] => Forall_nil _
+            | p :: r => @Forall_cons _ (fun p => P (fst p) /\ P (snd p)) p r
+                          (match p as p0 return P (fst p0) /\ P (snd p0) with (k, x) => conj (expr_ind' k) (expr_ind' x) end) (gm r)
+            end) pairs)
   | ENeg a => Hneg a (expr_ind' a)
   | ENot a => Hnot a (expr_ind' a)
   | EBin op a b => Hbin op a b (expr_ind' a) (expr_ind' b)
@@ -73,6 +82,14 @@ Lemma nobl_seq (ce : expr -> nat -> list instr) items : Forall (fun e => forall 
   forall base, nobl (seq_code ce items base).
 Proof. induction 1 as [|x r Hx Hr IH]; intros base; cbn [seq_code]; [reflexivity|]. apply nobl_app; auto. Qed.
 
+Lemma nobl_pairs (ce : expr -> nat -> list instr) pairs :
+  Forall (fun p => (forall base, nobl (ce (fst p) base)) /\ (forall base, nobl (ce (snd p) base))) pairs ->
+  forall base, nobl (pairs_code ce pairs base).
+Proof.
+  induction 1 as [|[k x] r [Hk Hx] Hr IH]; intros base; cbn [pairs_code]; [reflexivity|].
+  cbn [fst snd] in *. apply nobl_app; [apply Hk|]. apply nobl_app; [apply Hx|apply IH].
+Qed.
+
 Lemma nobl_emit op : nobl (emit_compare op).
 Proof. destruct op; reflexivity. Qed.
 
@@ -97,7 +114,7 @@ Lemma nobl_expr : forall e base, nobl (compile_expr e base).
 Proof.
   apply (expr_ind' (fun e => forall base, nobl (compile_expr e base))); intros; cbn [compile_expr];
     match goal with |- nobl (match ?X with _ => _ end) => destruct X; [reflexivity|] end;
-    repeat first [reflexivity | apply nobl_app | apply nobl_seq; assumption | match goal with H : _ |- _ => apply H end].
+    repeat first [reflexivity | apply nobl_app | apply nobl_seq; assumption | apply nobl_pairs; assumption | match goal with H : _ |- _ => apply H end].
   - (* ECmp *)
     destruct rest as [|[op b] [|p2 rest']].
     + apply H.
@@ -121,8 +138,7 @@ Proof. destruct t; reflexivity. Qed.
 Lemma nobl_binds binds : forall pc, nobl (binds_code binds pc).
 Proof.
   induction binds as [|[x e] r IH]; intros pc; cbn [binds_code]; [reflexivity|].
-  apply nobl_app; [apply nobl_expr|]. change (IStoreLocal x :: binds_code r (pc + length (compile_expr e pc) + 1)) with ([IStoreLocal x] ++ binds_code r (pc + length (compile_expr e pc) + 1)).
-  apply nobl_app; [reflexivity|apply IH].
+  apply nobl_app; [apply nobl_expr|]. apply nobl_app; [apply nobl_assign|apply IH].
 Qed.
 
 Lemma nobl_params ds ps : forall pc, nobl (params_code ds ps pc).
@@ -238,7 +254,7 @@ Proof.
       pose proof (f_end_eq tg iter flt rc body base) as Hfe. unfold f_body_at, f_it in *. cbn [length] in *. lia.
   - (* SSet *) intros x e C base lc Hc mc off fl Hin. cbn [compile_stmt] in Hin. apply in_app_or in Hin as [Hin|Hin].
     + exfalso; eapply nobl_notin; [apply nobl_expr|exact Hin].
-    + cbn in Hin. destruct Hin as [Hin|[]]; discriminate.
+    + exfalso; eapply nobl_notin; [apply nobl_assign|exact Hin].
   - (* SSetBlock *) intros x body f Hb C base lc Hc mc off fl Hin. cbn [compile_stmt] in Hc, Hin.
     apply in_app_or in Hin as [Hin|Hin]; [cbn in Hin; destruct Hin as [Hin|[]]; discriminate|].
     apply in_app_or in Hin as [Hin|Hin].
